@@ -41,10 +41,12 @@ def run(chk):
     sc = cl.model_scenarios(chk, 2) + cl.model_scenarios(chk, 3, keep_every=1 if thorough else 24, offset=chk.seed)
     walks = cl.random_walks(chk.seed, 2000 if thorough else 100, 40)
     sim = similar_tokens()
-    out = cl.run_scenarios(binary, sc + sim + walks, wd, "c07")
+    scripts = cl.script_walks(chk, binary, wd, chk.seed + 7, 2000 if thorough else 150)
+    out = cl.run_scenarios(binary, sc + sim + walks + scripts, wd, "c07")
     outs, ifl, pfl = cl.validate(chk, out, wd, "c07", shard=1500 if thorough else 400)
     cl.report(chk, outs, ifl, pfl, {"P07", "abnormal"}, WHAT)
     chk.cov["traces_validated_against_impl"] = len(outs)
+    chk.cov["reply_script_walks"] = len(scripts)
     chk.cov["evaluations"] = len(outs)
     chk.cov["distinct_nontrivial"] = len(sc)
     chk.cov["random_walks"] = len(walks)
